@@ -230,6 +230,262 @@ def model (ls : List String) : List String :=
     ++ showMap "self" c.text c.lookups (mapSelf pick c.text)
     ++ showMap "stored" c.text c.lookups (mapStored pick c.text stored)
 
-def judge (_ops _impl : List String) : Bool × String := (true, "todo")
+/-! ### the judge: the statement of C10 evaluated on the implementation's own output
+
+Reference = the abstract records printed by the generator next to every text line (`l … <kind> …`) and
+plain arithmetic on the line lengths; none of the model's parsers, state machine or lookup is used. -/
+
+/-- content length of a raw line: without the terminator `\r* \n` and without trailing `\r`s -/
+def contentLen (raw : List UInt8) : Nat :=
+  let l := if raw.getLast? = some 10 then raw.dropLast else raw
+  (l.reverse.dropWhile (· = 13)).length
+
+def content (raw : List UInt8) : List UInt8 := raw.take (contentLen raw)
+
+def Rec.isCloser : Rec → Bool
+  | .pub .. | .func .. | .stack | .info _ => true
+  | _ => false
+
+structure SpecSym where
+  addr : Nat
+  kind : Nat
+  len : Nat
+  off : Nat
+  name : List UInt8
+  size : Nat
+  /-- the lines after the FUNC line that belong to its block -/
+  body : List Rec
+
+/-- the FUNC / PUBLIC records with the extent the index must record for them -/
+def specSyms (textLen : Nat) : List TLine → List SpecSym
+  | [] => []
+  | t :: rest =>
+    match t.r with
+    | .pub _ addr _ name => ⟨addr % 4294967296, 0, contentLen t.raw, t.off, name, 0, []⟩ :: specSyms textLen rest
+    | .func _ addr size _ name =>
+      let blockLines := rest.takeWhile (fun u => !u.r.isCloser)
+      let endOff := match rest.find? (fun u => u.r.isCloser) with
+        | some u => u.off
+        | none => textLen
+      ⟨addr, 1, endOff - t.off, t.off, name, size, blockLines.map (·.r)⟩ :: specSyms textLen rest
+    | _ => specSyms textLen rest
+
+def specFiles (ls : List TLine) : List (Nat × Nat × Nat × List UInt8) :=
+  ls.filterMap fun t => match t.r with
+    | .file i n => some (i, contentLen t.raw, t.off, n)
+    | _ => none
+
+def specOrigins (ls : List TLine) : List (Nat × Nat × Nat × List UInt8) :=
+  ls.filterMap fun t => match t.r with
+    | .origin i n => some (i, contentLen t.raw, t.off, n)
+    | _ => none
+
+def specModInfo (ls : List TLine) : List UInt8 :=
+  match ls with
+  | [] => []
+  | m :: rest =>
+    rest.foldl (fun acc t => match t.r with
+      | .info _ => acc ++ 10 :: content t.raw
+      | _ => acc) (content m.raw)
+
+def strictlyAscending : List Nat → Bool
+  | a :: b :: rest => a < b && strictlyAscending (b :: rest)
+  | _ => true
+
+def keySetEq (a b : List Nat) : Bool := a.all (b.contains ·) && b.all (a.contains ·)
+
+/-- parsed output of one symbol map -/
+structure LookOut where
+  addr : Nat
+  res : List String          -- words after the address on the look line
+  frames : List (List String)
+
+def splitLooks (pre : String) : List String → List LookOut → List LookOut
+  | [], acc => acc.reverse
+  | l :: rest, acc =>
+    match words l with
+    | k :: a :: res =>
+      if k = pre ++ "look" then splitLooks pre rest (⟨nat! a, res, []⟩ :: acc)
+      else if k = pre ++ "frame" then
+        match acc with
+        | top :: acc' => splitLooks pre rest ({ top with frames := top.frames ++ [a :: res] } :: acc')
+        | [] => splitLooks pre rest acc
+      else splitLooks pre rest acc
+    | _ => splitLooks pre rest acc
+
+/-- acceptable names for a FILE / INLINE_ORIGIN id: any record with that id (`none` when there is none) -/
+def namesFor (tbl : List (Nat × Nat × Nat × List UInt8)) (idx : Nat) : List String :=
+  match (tbl.filter (·.1 = idx)).map (fun e => hexOf e.2.2.2) with
+  | [] => ["none"]
+  | l => l
+
+/-- the inline chain by direct reading: per depth the INLINE record with a range covering `a` -/
+def specChain (body : List Rec) (files origins : List (Nat × Nat × Nat × List UInt8)) (a : Nat) :
+    Nat → Nat → List String → List (List String × List String × String)
+  | 0, _, _ => []
+  | fuel + 1, depth, fnNames =>
+    let hit := body.find? fun r => match r with
+      | .inline d _ _ _ ranges => d = depth && ranges.any (fun (s, n) => s ≤ a && a < s + n)
+      | _ => false
+    match hit with
+    | some (.inline _ callLine callFile origin _) =>
+      (fnNames, namesFor files callFile, toString callLine)
+        :: specChain body files origins a fuel (depth + 1) (namesFor origins origin)
+    | _ => [(fnNames, [], "")]   -- marker: the innermost frame, completed by the caller
+
+/-- does any line record start at or before `a` (used only to tag the known line-gap deviation) -/
+def hasEarlierLine (body : List Rec) (a : Nat) : Bool :=
+  body.any fun r => match r with | .line s _ _ _ => s ≤ a | _ => false
+
+/-- expected frames (outermost last) as alternatives per field; innermost first like the API -/
+def specFrames (s : SpecSym) (files origins : List (Nat × Nat × Nat × List UInt8)) (a : Nat) :
+    List (List String × List String × String) :=
+  let chain := specChain s.body files origins a (s.body.length + 1) 0 [hexOf s.name]
+  let cover := s.body.find? fun r => match r with
+    | .line st n _ _ => st ≤ a && a < st + n
+    | _ => false
+  let chain := chain.map fun (fns, fl, ln) =>
+    if fl.isEmpty && ln = "" then
+      match cover with
+      | some (.line _ _ line file) => (fns, namesFor files file, toString line)
+      | _ => (fns, ["none"], "none")
+    else (fns, fl, ln)
+  chain.reverse
+
+def frameMatches (exp : List String × List String × String) (got : List String) : Bool :=
+  match got with
+  | [fn, fl, ln] => exp.1.contains fn && exp.2.1.contains fl && exp.2.2 = ln
+  | _ => false
+
+def framesMatch : List (List String × List String × String) → List (List String) → Bool
+  | [], [] => true
+  | e :: es, g :: gs => frameMatches e g && framesMatch es gs
+  | _, _ => false
+
+/-- check one lookup against the direct reading; returns an error description -/
+def checkLookup (syms : List SpecSym) (files origins : List (Nat × Nat × Nat × List UInt8))
+    (lo : LookOut) : Option String :=
+  let a := lo.addr
+  let below := syms.filter (·.addr ≤ a)
+  match below.foldl (fun m s => max m s.addr) 0, below with
+  | _, [] => if lo.res = ["none"] then none else some s!"reading:covering lookup {a}: no symbol at or below, got {lo.res}"
+  | best, _ =>
+    let cands := syms.filter (·.addr = best)
+    let next := (syms.filter (best < ·.addr)).foldl (fun m s => match m with
+      | none => some s.addr
+      | some x => some (min x s.addr)) none
+    let okFor (s : SpecSym) : Bool :=
+      if s.kind = 0 then
+        lo.res = ["sym", toString best, optNat (next.map (· - best)), hexOf s.name, "none"] && lo.frames.isEmpty
+      else if best + s.size ≤ a then lo.res = ["none"]
+      else
+        let fr := specFrames s files origins a
+        lo.res = ["sym", toString best, toString s.size, hexOf s.name, toString fr.length]
+          && framesMatch fr lo.frames
+    if cands.any okFor then none
+    else
+      -- classify the two deviations of the pinned tree that are recorded as known findings
+      let s := cands.headD ⟨0, 0, 0, 0, [], 0, []⟩
+      let originInBlock := s.kind = 1 && s.body.any (fun r => match r with | .origin .. => true | _ => false)
+      let tagStr :=
+        if originInBlock && lo.res = ["none"] && a < best + s.size then "reading:origin-in-func-block"
+        else if s.kind = 1 && a < best + s.size then
+          let fr := specFrames s files origins a
+          let got := lo.frames
+          -- everything agrees except file/line of the innermost frame, and no line record covers `a`
+          let relaxed := fr.zip got |>.all fun (e, g) => match g with
+            | [fn, _, _] => e.1.contains fn
+            | _ => false
+          if fr.length = got.length && relaxed && hasEarlierLine s.body a
+              && (fr.head?.map (·.2.2)) = some "none" && framesMatch (fr.drop 1) (got.drop 1)
+          then "reading:line-gap" else "reading:frames"
+        else "reading:covering"
+      some s!"{tagStr} lookup {a}: direct reading of the record at {best} does not give {lo.res} {lo.frames}"
+
+def firstSome {α : Type} (f : α → Option String) : List α → Option String
+  | [] => none
+  | x :: xs => match f x with | some e => some e | none => firstSome f xs
+
+def judge (ops impl : List String) : Bool × String :=
+  let c := parseCase ops
+  let w := impl.map words
+  if impl.any (fun l => (words l).contains "panic") then (false, "panic: the implementation panicked") else
+  -- 1. every partition gives the same index
+  let parts := w.filter (·.head? = some "part")
+  if parts.length ≠ c.parts.length then (false, "chunking: missing part lines") else
+  let sig := parts.map (·.drop 2)
+  match sig with
+  | [] => (true, "nothing to check: the case has no partition op")
+  | s0 :: _ =>
+  match sig.findIdx? (· ≠ s0) with
+  | some i => (false, s!"chunking: partition {i} gives {sig[i]?.getD []} but partition 0 gives {s0}")
+  | none =>
+  -- 2. parse/serialize round trip of the index bytes
+  let bytesLine := w.find? (·.head? = some "bytes")
+  let rtLine := w.find? (·.head? = some "roundtrip")
+  let rtErr : Option String :=
+    if s0.head? ≠ some "ok" then none else
+    match bytesLine, rtLine with
+    | some [_, h], some [_, st, len, f, same] =>
+      let b := unhex h
+      if [toString b.length, toString (fnv b).toNat] ≠ s0.drop 1 then some "chunking: bytes line does not match the part hash"
+      else if st ≠ "ok" then some "roundtrip: parse_symindex_file rejects the creator's bytes"
+      else if [len, f] ≠ s0.drop 1 then some "roundtrip: serialize(parse(bytes)) differs from bytes"
+      else if same ≠ "same" then some "roundtrip: parsed fields differ from the layout decoding"
+      else none
+    | _, _ => some "roundtrip: missing bytes/roundtrip line"
+  match rtErr with
+  | some e => (false, e)
+  | none =>
+  -- 3. stored index vs self-built index
+  let selfL := impl.filter (fun l => l.startsWith "selfmap" || l.startsWith "look" || l.startsWith "frame")
+  let storedL := impl.filter (fun l => l.startsWith "storedmap" || l.startsWith "slook" || l.startsWith "sframe")
+  let strip (l : String) : String :=
+    if l.startsWith "storedmap" then "selfmap" ++ (l.drop 9).toString
+    else (l.drop 1).toString
+  if selfL ≠ storedL.map strip then
+    let i := (selfL.zip (storedL.map strip)).findIdx? (fun (a, b) => a ≠ b)
+    (false, s!"stored-vs-self: the map with the stored index answers differently (first difference at line {i.getD 0}: {selfL[i.getD 0]?.getD ""} vs {storedL[i.getD 0]?.getD ""})")
+  else
+  -- 4. agreement with a direct reading of the abstract records; only for files the generator declares
+  --    well-formed and that start with a MODULE record (a shrunk case may have lost it)
+  let startsWithModule := match c.lines.head? with
+    | some t => (match t.r with | .module .. => true | _ => false)
+    | none => false
+  if !c.reading || !startsWithModule then (true, "ok") else
+  if s0.head? ≠ some "ok" then (false, "index-reading: no index for a well-formed file") else
+  let syms := specSyms c.text.length c.lines
+  let files := specFiles c.lines
+  let origins := specOrigins c.lines
+  let gotSyms := w.filterMap fun l => match l with
+    | ["sym", a, k, n, o] => some (nat! a, nat! k, nat! n, nat! o)
+    | _ => none
+  let gotTbl (t : String) := w.filterMap fun l => match l with
+    | [t', i, n, o] => if t' = t then some (nat! i, nat! n, nat! o) else none
+    | _ => none
+  let modinfo := w.find? (·.head? = some "modinfo")
+  if modinfo ≠ some ["modinfo", hexOf (specModInfo c.lines)] then (false, "index-reading: module info block") else
+  if !strictlyAscending (gotSyms.map (·.1)) then (false, "index-reading: symbol addresses not strictly ascending") else
+  if !keySetEq (gotSyms.map (·.1)) (syms.map (·.addr)) then (false, "index-reading: symbol address set") else
+  match gotSyms.find? (fun g => !syms.any (fun s => (s.addr, s.kind, s.len, s.off) = g)) with
+  | some g => (false, s!"index-reading: symbol entry {g} is not the extent of any record")
+  | none =>
+  let chkTbl (name : String) (spec : List (Nat × Nat × Nat × List UInt8)) : Option String :=
+    let got := gotTbl name
+    if !strictlyAscending (got.map (·.1)) then some s!"index-reading: {name} indexes not strictly ascending"
+    else if !keySetEq (got.map (·.1)) (spec.map (·.1)) then some s!"index-reading: {name} index set"
+    else match got.find? (fun g => !spec.any (fun s => (s.1, s.2.1, s.2.2.1) = g)) with
+      | some g => some s!"index-reading: {name} entry {g} is not the extent of any record"
+      | none => none
+  match chkTbl "file" files, chkTbl "origin" origins with
+  | some e, _ => (false, e)
+  | _, some e => (false, e)
+  | none, none =>
+  if !(impl.any (·.startsWith "selfmap ok")) then (false, "reading: no symbol map for a well-formed file") else
+  let looks := splitLooks "" impl []
+  if looks.map (·.addr) ≠ c.lookups then (false, "reading: lookup lines do not match the lookup ops") else
+  match firstSome (checkLookup syms files origins) looks with
+  | some e => (false, e)
+  | none => (true, "ok")
 
 end C10
